@@ -44,7 +44,7 @@ theorem T13_op_ranges_cover (keys : List Nat) (total : Nat) : ∀ (ws : List WP)
       exact ⟨x, List.mem_cons_of_mem _ hx, hx1, hx2⟩
 
 /-- **T13.protocol_invariant_every_schedule** — for every node updater, every level, every change list, every worker
-count and EVERY interleaving `s` of the worker threads (the code as it is: `staleHigh = false`; leaf or branch stage, with
+count and EVERY interleaving `s` of the worker threads (the code as it is: `staleHigh = false`, `highMax = false`; leaf or branch stage, with
 or without the `single-merge` change), started in the state `run` spawns the workers in: the run never reaches a PROTOCOL
 panic site (`right_neighbor.unwrap()`, a `send` on a disconnected channel, `rx.recv().unwrap()` after the responder is gone,
 a response to a requester that does not wait, a request dropped with its `Receiver`, `assert!(pending_left_request
@@ -55,13 +55,13 @@ and at most one outstanding request, whose sender is blocked until the answer; a
 channel, pending at the neighbour, or its answer in its slot; the receiver of a live sender has not returned; `range.high =
 Some` implies a right neighbour (before the worker finished its workload). -/
 theorem T13_protocol_invariant_every_schedule {σ N C : Type} (U : Upd σ N C) (cfg : Cfg) (hs : cfg.staleHigh = false)
-    (db : List (DbN N)) (cs : List (Nat × C)) (look : Nat → Option Nat) (hlook : ∀ k s, look k = some s → s ≤ k)
+    (hm : cfg.highMax = false) (db : List (DbN N)) (cs : List (Nat × C)) (look : Nat → Option Nat) (hlook : ∀ k s, look k = some s → s ≤ k)
     (hasc : Asc (cs.map (·.1))) (hne : cs ≠ []) (count : Nat) (s : List Nat) :
     match runSched U cfg db s (initG U cfg db cs (prepareWorkers look (cs.map (·.1)) count)) with
     | .inr g' => AInv (absG g')
     | .inl site => site ∈ updSites := by
   have hc := (T13_prepare_workers_partition look hlook (cs.map (·.1)) hasc (by simpa using hne) count).1
-  exact inv_runSched U cfg db hs s _ (inv_init U cfg db cs (cs.map (·.1)) _ none 0 false hc)
+  exact inv_runSched U cfg db hs hm s _ (inv_init U cfg db cs (cs.map (·.1)) _ none 0 false hc)
 
 /-- **T13.no_deadlock** — no cyclic wait: in every reachable state (any state with the protocol invariant) in which some
 worker has not returned, some worker can take a step that is not `blocked`: a move that keeps the invariant, or a panic of
@@ -70,11 +70,11 @@ right worker has finished its workload (`answer … true ≠ none`).  Hence ever
 returned (or in an updater panic).  Fairness: none is needed for this statement — a blocking `recv` is a disabled step, not a
 spin.  Termination of every run additionally needs that the updater's loops terminate (each `NeedsMerge` is followed by a
 `reset_base` that consumes a node of the finite level or removes the cutoff) — not proved here for an abstract updater. -/
-theorem T13_no_deadlock {σ N C : Type} (U : Upd σ N C) (cfg : Cfg) (hs : cfg.staleHigh = false) (db : List (DbN N))
+theorem T13_no_deadlock {σ N C : Type} (U : Upd σ N C) (cfg : Cfg) (hs : cfg.staleHigh = false) (hm : cfg.highMax = false) (db : List (DbN N))
     (g : G σ N C) (h : AInv (absG g)) (hnd : allDone g = false) :
     ∃ i, i < g.n ∧ ((∃ g', step U cfg db g i = .ok g' ∧ AInv (absG g')) ∨
       ∃ site, step U cfg db g i = .panic site ∧ site ∈ updSites) :=
-  progress U cfg db hs g h hnd
+  progress U cfg db hs hm g h hnd
 
 /-- **T13.deferred_request_answered** — `try_answer_left_neighbor(.., has_finished_workload = true)` always answers. -/
 theorem T13_deferred_request_answered {N : Type} (inner : Inner N) (low high right : Option Nat) :
@@ -107,6 +107,22 @@ theorem T13_worker_count_independent_partial :
       (Toy.stage {} Toy.lvlA Toy.csA n p.1 p.2).map (·.1) == some [[10, 30, 31, 32], [33, 40, 41, 42], [50, 51, 52, 53]]) = true ∧
     [[10, 30, 31, 32], [33, 40, 41, 42], [50, 51, 52, 53]].flatten = Toy.specKeys Toy.lvlA Toy.csA := by
   constructor <;> decide +kernel
+
+/-- **T13.seeded_high_max_counterexample** — the mirror with `range.high = range.high.max(response.new_high_range)`
+(seeded change `C13-extend-range-high-max`; `None` = unbounded sorts below `Some`): the last worker's first node is emptied
+and an untouched tail follows, so its answer is "everything up to the end is yours" (`new_high_range = None`) and the left
+worker keeps its stale finite bound; its second merge into the tail sends a bogus request (answered with "no right neighbour
+left"), its third reaches `right_neighbor.as_ref().unwrap()` on `None`: with 2 and with 3 workers, under both schedule
+policies, the stage PANICS (the result depends on the worker count — C13), while one worker, and the code as it is with any
+worker count, produce the sequential content.  `T13_protocol_invariant_every_schedule` excludes exactly this site for the
+code as it is. -/
+theorem T13_seeded_high_max_counterexample :
+    ([2, 3].all fun n => [(false, 1000), (true, 1)].all fun p =>
+      Toy.stagePanic { highMax := true } Toy.lvlC Toy.csC n p.1 p.2 == some "right_neighbor.as_ref().unwrap()") = true ∧
+    (Toy.stagePanic { highMax := true } Toy.lvlC Toy.csC 1 false 1000).isNone = true ∧
+    ([1, 2, 3].all fun n => [(false, 1000), (true, 1)].all fun p =>
+      ((Toy.stage {} Toy.lvlC Toy.csC n p.1 p.2).map fun r => r.1.flatten) == some (Toy.specKeys Toy.lvlC Toy.csC)) = true := by
+  refine ⟨?_, ?_, ?_⟩ <;> decide +kernel
 
 /-! ## non-vacuity -/
 
